@@ -300,6 +300,75 @@ def run_mutation(ctx):
             ctx.mismatch("cenc-mutated", inp, a, "ok " + hx(fresh))
 
 
+def run_list_mutation(ctx):
+    """A list value (every list type that occurs in a command schema) that is serialized - directly and as a command
+    parameter -, changed in place with each of Python's list mutators, and serialized again: the second encoding is the
+    encoding of the content it has then (oracle: a fresh list of the same type built from that content)."""
+    import codecio
+    import gen
+    r = ctx.rng
+    ltypes = {}
+    for cls, qn, hdr, blocking, fl in codecio.table():
+        for p in cls.schema:
+            T = p.type
+            if isinstance(T, type) and issubclass(T, list) and getattr(T, "_item_type", None) is not None:
+                ltypes.setdefault(T, (cls, p))
+    mutators = ["append", "extend", "insert", "pop", "remove", "del", "clear", "iadd", "sort", "reverse", "setitem", "setslice"]
+    for T, (cls, p) in ltypes.items():
+        for mut in mutators:
+            for rep in range(ctx.scale(1, 6)):
+                try:
+                    v = gen.gen(T, r, size=r.choice([1, 2, 3]))
+                except Exception:
+                    continue
+                if getattr(T, "_length", None) is not None and mut not in ("sort", "reverse", "setitem", "setslice"):
+                    continue          # fixed-length lists: only the length-preserving mutators
+                try:
+                    first = v.serialize()
+                    kw_cmd = None
+                    if rep % 2 == 0:
+                        base = gen.gen_cmd(cls, r)
+                        kw = {q.name: getattr(base, q.name) for q in cls.schema if getattr(base, q.name) is not None}
+                        kw[p.name] = v
+                        cls(**kw).to_frame()
+                        kw_cmd = kw
+                    item = gen.gen(T._item_type, r)
+                    if mut == "append": v.append(item)
+                    elif mut == "extend": v.extend([item])
+                    elif mut == "insert": v.insert(0, item)
+                    elif mut == "pop": v.pop()
+                    elif mut == "remove": v.remove(v[0])
+                    elif mut == "del": del v[0]
+                    elif mut == "clear": v.clear()
+                    elif mut == "iadd": v += [item]
+                    elif mut == "sort": v.sort(key=lambda x: bytes(x.serialize()) if hasattr(x, "serialize") else x, reverse=True)
+                    elif mut == "reverse": v.reverse()
+                    elif mut == "setitem": v[0] = item
+                    elif mut == "setslice": v[0:1] = [item]
+                    second = v.serialize()
+                    fresh = T(list(v)).serialize()
+                except Exception:
+                    continue
+                inp = dict(list_type=T.__name__, mutator=mut, content_now=[hx(x.serialize()) if hasattr(x, "serialize") else x for x in list(v)][:6],
+                           used_in_command_before=bool(kw_cmd))
+                ctx.case(("listmut", T.__name__, mut, second), sample=dict(inp, bytes=hx(second)[:40]))
+                ctx.count("list:mutated-in-place:" + mut)
+                if second != fresh:
+                    ctx.counterexample("list-stale-encoding", inp, hx(fresh), hx(second),
+                                       "after an in-place change the list serializes to the encoding of its earlier content")
+                    continue
+                if kw_cmd is not None:
+                    try:
+                        again = cls(**kw_cmd).to_frame().hl_packet.serialize()
+                        kw2 = dict(kw_cmd); kw2[p.name] = T(list(v))
+                        want = cls(**kw2).to_frame().hl_packet.serialize()
+                        if again != want:
+                            ctx.counterexample("list-stale-encoding", dict(inp, command=cls.__qualname__), hx(want)[:80], hx(again)[:80],
+                                               "a command built with a list that was changed in place carries the list's earlier content")
+                    except Exception:
+                        pass
+
+
 def run_structlists(ctx):
     """Lists whose items are C structs, under both alignment modes: the list codecs hand `align` down to the
     items.  Expected bytes = length header ++ the Lean struct encoding of every item (`cenc`)."""
@@ -422,6 +491,7 @@ def run(ctx):
     run_wire(ctx)
     run_cstruct(ctx)
     run_mutation(ctx)
+    run_list_mutation(ctx)
     run_structlists(ctx)
     run_nvram(ctx)
 
